@@ -13,6 +13,7 @@ from ckl.values import (
 
 from ckl.nodes import (
     NodeAnd,
+    NodeChain,
     NodeAssign,
     NodeAssignDestructuring,
     NodeBlock,
@@ -397,6 +398,7 @@ def parse_rel_expr(lexer):
     ):
         return expr
     result = NodeAnd(None, lexer.getPosNext())
+    operands = [expr]
     lhs = expr
     while (
         lexer.hasNext()
@@ -426,7 +428,10 @@ def parse_rel_expr(lexer):
         elif relop in ["<>", "!=", "is not"]:
             cmp = func_call("not_equals", lhs, rhs, pos)
         result.addAndClause(cmp)
+        operands.append(rhs)
         lhs = rhs
+    if len(operands) > 2:
+        return NodeChain(result.expressions, operands, result.pos)
     return result.getSimplified()
 
 
